@@ -67,9 +67,15 @@ def run(ctx):
              "cont_pc and pc are the reviewed sets")
     ctx.rule("C13.c", "Stack::clear on the value stack in interrupt and in the error arm is not "
              "unconditional: it is only reached under pc >= entry_address (or a full stack)")
+    ctx.rule("C13.d", "the continuation is dropped (cont = Stopped) only where the reviewed table "
+             "says: Runtime::end (which drops it when pc == entry_address, i.e. the program ran off "
+             "its end) is called only from the End arm of the VM loop and from the commands that "
+             "end a run (DELETE, RENUM, LOAD, SAVE); a direct line that fails to compile stops "
+             "without touching cont")
     rule_a(ctx, cr)
     rule_b(ctx, cr)
     rule_c(ctx, cr)
+    rule_d(ctx, cr)
 
 
 def rule_a(ctx, cr):
@@ -237,3 +243,42 @@ def rule_c(ctx, cr):
               "an error inside the program keeps the stack unless it is full",
               "the error arm clears the value stack on every path: CONT after STOP/END/error "
               "loses its frames")
+
+
+END_CALLERS = {"mach::runtime::Runtime::execute_loop", "mach::runtime::Runtime::delete",
+               "mach::runtime::Runtime::renum", "mach::runtime::Runtime::load",
+               "mach::runtime::Runtime::loadrun", "mach::runtime::Runtime::save"}
+
+
+def rule_d(ctx, cr):
+    e = cr.need_fn("mach::runtime::Runtime::end")
+    ctx.touch(e)
+    callers = set(cr.callers_of(e.path))
+    ctx.check(callers <= END_CALLERS, "C13.d", "end/callers", e.span,
+              "r#end is called by %s" % sorted(c.rsplit("::", 1)[1] for c in callers),
+              "r#end is now also called by %s: end() discards the saved continuation whenever "
+              "pc == entry_address, which outside the VM loop is the case before anything ran "
+              "(a failed direct line after a break would make CONT answer CAN'T CONTINUE)"
+              % sorted(callers - END_CALLERS))
+    ex = cr.need_fn("mach::runtime::Runtime::execute")
+    ctx.touch(ex)
+    # the direct-errors stop: state = Stopped and no store to cont on that path
+    evd = [b for b, i, s in ex.aggregates("mach::runtime::Event", "Errors")
+           if "direct_errors" in ex.describe(s["rv"]["ops"][0])]
+    cont_st = [b for b, s, v in ex.field_stores("cont")]
+    ok = bool(evd) and all(not ex.dominates(cb, b) and not (ex.can_reach(cb, b) and
+                                                             ex.dominates(_top(ex, b), cb))
+                           for b in evd for cb in cont_st)
+    ctx.check(ok, "C13.d", "execute/direct-errors-keep-cont", ex.span,
+              "reporting a direct line's compile errors does not write cont")
+
+
+def _top(ex, b):
+    """entry of the `direct_errors not empty` branch that contains block b"""
+    best = b
+    for d in ex.dominators().get(b, ()):
+        if any(c[0] == "eq" and "is_empty" in str(c[1]) and "direct_errors" in str(c[1])
+               for c in ex.conds_at(d)):
+            if ex.dominates(d, best):
+                best = d
+    return best
